@@ -579,6 +579,66 @@ fn choices(level: usize, with_text: bool) -> Vec<Choice> {
     v
 }
 
+/// optional text content / optional `$value` choice (absent = skipped; present = non-empty,
+/// because an empty text is indistinguishable from an absent one by design)
+#[derive(Serialize, Deserialize, PartialEq, Debug, Clone)]
+pub struct OptText {
+    #[serde(rename = "@k")]
+    pub k: u8,
+    #[serde(rename = "$text", default, skip_serializing_if = "Option::is_none")]
+    pub t: Option<String>,
+}
+impl Fam for OptText {
+    const NAME: &'static str = "OptText";
+    const IGNORES_UNKNOWN_CHILDREN: bool = false;
+    fn values(level: usize) -> Vec<Self> {
+        let mut v = vec![OptText { k: 0, t: None }];
+        for s in text_strings(level) {
+            if !s.is_empty() {
+                v.push(OptText { k: 1, t: Some(s) });
+            }
+        }
+        v
+    }
+    fn payload2(s: &str, strict: bool) -> Vec<Self> {
+        if !strict || (trimmed(s) && !s.is_empty()) {
+            vec![OptText { k: 1, t: Some(s.to_string()) }]
+        } else {
+            Vec::new()
+        }
+    }
+}
+#[derive(Serialize, Deserialize, PartialEq, Debug, Clone)]
+pub struct OptValue {
+    #[serde(rename = "@k")]
+    pub k: u8,
+    #[serde(rename = "$value", default, skip_serializing_if = "Option::is_none")]
+    pub v: Option<Choice>,
+}
+impl Fam for OptValue {
+    const NAME: &'static str = "OptValue";
+    const IGNORES_UNKNOWN_CHILDREN: bool = false;
+    fn values(level: usize) -> Vec<Self> {
+        let mut v = vec![OptValue { k: 0, v: None }];
+        for c in choices(level, true) {
+            if !matches!(&c, Choice::Text(t) if t.is_empty()) {
+                v.push(OptValue { k: 1, v: Some(c) });
+            }
+        }
+        v
+    }
+    fn payload2(s: &str, strict: bool) -> Vec<Self> {
+        let mut v = Vec::new();
+        if !strict || trimmed(s) {
+            v.push(OptValue { k: 1, v: Some(Choice::Newtype(s.to_string())) });
+            if !strict || !s.is_empty() {
+                v.push(OptValue { k: 1, v: Some(Choice::Text(s.to_string())) });
+            }
+        }
+        v
+    }
+}
+
 #[derive(Serialize, Deserialize, PartialEq, Debug, Clone)]
 pub struct OneChoice {
     #[serde(rename = "@k")]
@@ -901,7 +961,7 @@ macro_rules! for_each_type {
     ($mac:ident) => {
         $mac!(
             Attrs, OptAttr, Children, TextDefault, TextPlain, TextAndElems, TextVecElem, ValueString, OptElems, VecElems, VecStructs, TextList,
-            AttrList, UnitEnums, OneChoice, OneTuple, Mixed, Nested, MapHolder, NewtypeStr, NewtypeHolder, Numbers, TopEnum, Renamed
+            AttrList, UnitEnums, OptText, OptValue, OneChoice, OneTuple, Mixed, Nested, MapHolder, NewtypeStr, NewtypeHolder, Numbers, TopEnum, Renamed
         );
     };
 }
